@@ -159,7 +159,18 @@ impl ReadCfg {
     }
 }
 
+/// bit 7 of a tolerance mask: hand the same classes to allow_errors() in reverse order and each of them twice — how the slice is
+/// spelled must not matter
+pub const TOL_RESPELLED: u8 = 0x80;
+
 pub fn tolerances(mask: u8) -> Vec<AllowableErrors> {
+    if mask & TOL_RESPELLED != 0 {
+        let m = mask & !TOL_RESPELLED;
+        let mut w = tolerances(m);
+        w.extend(tolerances(m));
+        w.reverse();
+        return w;
+    }
     let mut v = Vec::new();
     if mask & TOL_IDS != 0 {
         v.push(AllowableErrors::InvalidTagIds);
